@@ -15,6 +15,7 @@ import numpy as np
 
 import dataiter as di
 from mc import values as V
+from mc import harness
 from mc.ref import stats as S
 
 ID = "C07"
@@ -95,7 +96,8 @@ def shards(tier):
                         out.append({"part": "group", "family": family, "kind": kind, "n": m, "first": first})
                 else:
                     out.append({"part": "group", "family": family, "kind": kind, "n": m, "first": None})
-    return out
+    # other forms / provenances of the same arrays (mc/values.np_array, frame_via, vector_via)
+    return harness.with_array_forms(out, tier, lambda sh: sh["part"] in ("vector", "group") and sh.get("first") is None and sh["kind"] in ("f8", "i8", "str", "D", "b1"))
 
 
 def call_kwargs(kw):
